@@ -807,6 +807,14 @@ package badger
 
 // dropPrefixes: on every level below 0 exactly the tables that may hold one of the prefixes are
 // grouped and rewritten with those prefixes; level 0 is compacted with the same prefixes.
+// A finished group of tables is handed over as its own slice: the next group must not share
+// (and so overwrite) its backing array.
+//@ func (*levelsController).dropPrefixes.finishGroup
+//@   props C29 C14
+//@   light
+//@   ensures[group-handed-over] old(len(tableGroup)) > 0 ==> len(tableGroups) == old(len(tableGroups)) + 1 && tableGroup == nil
+//@   ensures[empty-group-ignored] old(len(tableGroup)) == 0 ==> len(tableGroups) == old(len(tableGroups))
+
 //@ func (*levelsController).dropPrefixes
 //@   props C29
 //@   light
@@ -903,9 +911,12 @@ package badger
 // reachable from Open, reads and Close is guarded by "not read-only" ----
 
 //@ func revertToManifest
-//@   props C07
+//@   props C07 C14 C08
 //@   light
 //@   assert[readonly-guard] before call Remove : !kv.opt.ReadOnly
+//@   reach[unreferenced-files-do-get-removed] before call Remove : !kv.opt.ReadOnly
+//@   reach[missing-table-is-reported] before return#1 : result != nil
+//@   assert[only-unreferenced-files-removed] before call NewFilename : !(arg0 in mf.Tables) && arg0 in idMap && arg1 == kv.opt.Dir
 
 //@ func helpOpenOrCreateManifestFile
 //@   props C07 C09 C17
@@ -914,6 +925,7 @@ package badger
 //@   assert[readonly-guard-create] before call helpRewrite : !readOnly
 //@   assert[truncated-at-replay-offset] before call Truncate : arg0 == ret0(OpenExistingFile#1) && arg1 == ret1(ReplayManifestFile#1) && ret2(ReplayManifestFile#1) == nil
 //@   assert[replay-of-the-opened-file] before call ReplayManifestFile : arg0 == ret0(OpenExistingFile#1) && arg1 == extMagic
+//@   assert[handle-remembers-its-settings] before return : result2 == nil ==> result0 != nil && result0.externalMagic == extMagic && result0.directory == dir && result0.deletionsRewriteThreshold == deletionsThreshold
 //@   assert[appends-go-to-the-end] before call Seek : arg1 == 0 && arg2 == io.SeekEnd && (readOnly || called(Truncate#1))
 
 //@ func createDirs
